@@ -46,8 +46,8 @@ Print Assumptions C04_runinfo_roundtrip_unguarded_refuted.
 
 (* ---------------------------------------------------------------------------------------------------------- *)
 (* 2. Reload = the run's results.  `finish false c = Ok f`: the run of request c (Model/MapRun.v) finished with final
-      state f_state f and left the folder f_world f (RunInfo.__post_init__, element files, single-output files,
-      _maybe_persist_memory).  valid_request c (Corr/Valid_C04.v): unique names without "," and "/", well-formed
+      state f_state f and left the folder f_world f (RunInfo.__post_init__: inputs, defaults, then run_info.json last;
+      element files, single-output files, _maybe_persist_memory).  valid_request c (Corr/Valid_C04.v): unique names without "," and "/", well-formed
       MapSpecs of rank >= 1 whose outputs are the function's outputs, storage-dict keys are names or non-empty tuples.
       For every output o of a function whose storage persists (file_array, or dict / shared_memory_dict with
       persist_memory), load_outputs(o) in ANY interpreter - `live` is the set of manager processes alive there: the run's
